@@ -161,9 +161,11 @@ def gen_case(rng, tier):
     elif f == 'count-mismatch':
         isa['instructions']['ldi']['operands']['count'] = rng.choice([1, 3])
     elif f == 'inverted-nb':
-        isa['operand_sets']['misc']['operand_values']['nb']['bytecode'].update(min=9, max=rng.choice([0, 8]))
+        lo_, hi_ = rng.choice([(9, 0), (9, 8), (0, -1), (1, 0), (3, 2)])
+        isa['operand_sets']['misc']['operand_values']['nb']['bytecode'].update(min=lo_, max=hi_)
     elif f == 'inverted-rel':
-        isa['operand_sets']['misc']['operand_values']['ra']['argument'].update(min=5, max=rng.choice([2, 4]))
+        lo_, hi_ = rng.choice([(5, 2), (5, 4), (127, 0), (0, -128), (1, 0), (0, -1), (-3, -4)])     # also with a bound that is 0
+        isa['operand_sets']['misc']['operand_values']['ra']['argument'].update(min=lo_, max=hi_)
     elif f.startswith('zone-') or f == 'origin-below-global':
         pz = isa.setdefault('predefined', {}).setdefault('memory_zones', [])
         if f == 'zone-inverted':
